@@ -36,7 +36,7 @@ def matches(sym: dict, expect: dict) -> bool:
 def _run(finding: dict):
     script = (VERIF / finding["witness"]).read_text()
     res = engine.differential(script, passes=int(finding.get("passes", 2)), tapes=finding.get("tapes"),
-                              hazards=True)
+                              hazards=True, **({"keep": tuple(finding["keep"])} if finding.get("keep") else {}))
     return symptom(res), script, res.get("cpp")
 
 
